@@ -24,6 +24,23 @@ def lzma_layer(res, binary, hooked, tier, seed, prop, walks):
     res.add_harness(rep, "every exported behaviour of MC_LzmaDecoder selected for %s -> raw LzmaDecoder with dict_size = D, memlimit = M" % prop)
     return mc
 
+def symbol_traces(res, binary, hooked, tier, seed, prop):
+    """Hooked symbol events of real decodes (repository test files = real liblzma output, plus generated streams)
+    validated against the format automaton by Trace_Lzma."""
+    if not hooked:
+        res.notes["symbol_trace_validation"] = "skipped (hooks not available in this build)"
+        return
+    trace = os.path.join(WORK, "trace_sym_%s.ndjson" % prop)
+    rep = run_harness(binary, ["symtrace", "--property", prop, "--seed", seed, "--files", os.path.join(REPO, "tests", "files"),
+                               "--cap", tq(tier, 20000, 400000), "--trace", trace], "%s_sym" % prop)
+    res.add_harness(rep, "symbol-commit events recorded by the hooks while decoding tests/files/*.lzma, *.xz and generated LZMA / LZMA2 streams", counts_as_traces=False)
+    ok, info = validate_trace("Trace_Lzma", "Trace_Lzma.cfg", trace, "%s_symtrace" % prop, timeout=tq(tier, 600, 3600))
+    res.add_tlc(info, "trace validation: every committed symbol is a step of the format automaton (state tables, rep LRU, copy validity, output length; LZMA2 reset classes)")
+    if ok:
+        res.traces += rep["evaluations"]
+    else:
+        res.drift.append({"desc": "Trace_Lzma rejected a recorded symbol sequence: %s" % (info.get("reject") or info.get("error") or "")[:500]})
+
 def plan_C01(res, binary, hooked, tier, seed):
     cfg = tq(tier, "MC_LzmaCoding_quick.cfg", "MC_LzmaCoding_thorough.cfg")
     mc = run_tlc("MC_LzmaCoding", cfg, "C01_cod", workers=tq(tier, 8, 14), timeout=tq(tier, 600, 7200))
@@ -33,13 +50,15 @@ def plan_C01(res, binary, hooked, tier, seed):
                                "--walks", tq(tier, 60, 1500), "--walk-syms", tq(tier, 400, 1500)], "C01_cod")
     res.add_harness(rep, "TLC-exported programs range-coded from TLC's own decision lists -> one-shot / raw / Stream; long walks of the transcribed spec")
     lzma_layer(res, binary, hooked, tier, seed, "C01", [])
+    symbol_traces(res, binary, hooked, tier, seed, "C01")
     return ("cases = behaviours of the bounded TLA+ models (all symbol programs up to the bound x props x dictionary sizes) plus seeded long walks; "
             "distinct = distinct (input bytes, api, options); non-trivial = at least one symbol decoded or an error expected"), TRUSTED_LZMA
 
 def plan_C08(res, binary, hooked, tier, seed):
-    lzma_layer(res, binary, hooked, tier, seed, "C08", [])
-    return ("behaviours of MC_LzmaDecoder ending by size / marker / overshoot / truncation, replayed on the raw decoder; "
-            "distinct = distinct (bytes, options)"), TRUSTED_LZMA
+    lzma_layer(res, binary, hooked, tier, seed, "C08", ["--options-matrix", tq(tier, 24, 400)])
+    return ("behaviours of MC_LzmaDecoder ending by size / marker / overshoot / truncation, replayed on the raw decoder; plus, on the one-shot and streaming APIs, "
+            "programs x {ReadFromHeader, ReadHeaderButUseProvided(None|n), UseProvided(None|n)} x header size field {all-ones, true, true+1, true-1, 0, 2^40} x marker present/absent x n in {true, +1, -1, 0} "
+            "with the bytes consumed (13/13/5 header bytes + payload) compared on success; distinct = distinct (bytes, options)"), TRUSTED_LZMA
 
 def plan_C09(res, binary, hooked, tier, seed):
     lzma_layer(res, binary, hooked, tier, seed, "C09", [])
@@ -48,8 +67,9 @@ def plan_C09(res, binary, hooked, tier, seed):
             "distinct = distinct (bytes, dict)"), TRUSTED_LZMA
 
 def plan_C10(res, binary, hooked, tier, seed):
-    lzma_layer(res, binary, hooked, tier, seed, "C10", [])
-    return ("behaviours of MC_LzmaDecoder under every memory limit of the model (0..D and none); distinct = distinct (bytes, dict, limit)"), TRUSTED_LZMA
+    lzma_layer(res, binary, hooked, tier, seed, "C10", ["--memlimit-matrix", tq(tier, 20, 300)])
+    return ("behaviours of MC_LzmaDecoder under every memory limit of the model (0..D and none) on the raw decoder; plus real-size streams (output below and above the dictionary) under limits "
+            "{0, need-1, need, need+1, dict-1, dict, 2^32-1, none} on the one-shot, streaming and raw APIs with the peak heap observed by the counting allocator; distinct = distinct (bytes, dict, limit, api)"), TRUSTED_LZMA
 
 TRUSTED_STREAM = [
     "TLC 1.8 / SANY; Stream.tla (decoder loop of process_mode transcribed branch by branch)",
@@ -175,6 +195,7 @@ def lzma2_layer(res, binary, hooked, tier, seed, prop, walks):
 
 def plan_C02(res, binary, hooked, tier, seed):
     lzma2_layer(res, binary, hooked, tier, seed, "C02", tq(tier, 60, 2500))
+    symbol_traces(res, binary, hooked, tier, seed, "C02")
     return ("all well-formed chunk sequences of the bounded model + seeded long chunk sequences (1..6 chunks, programs up to 6000 symbols, 1-byte and 64 KiB uncompressed chunks, property changes keeping and changing lc+lp, every reset class); distinct = distinct (stream bytes, api)"), TRUSTED_L2
 
 def plan_C17(res, binary, hooked, tier, seed):
